@@ -122,12 +122,37 @@ inductive Cmd where
   | step
   | cont
   | brk (pc : Int)               -- `break <location>` resolved to an instruction number
-  | clear (pc : Int)
+  | clear (pcs : List Int)      -- `clear <location>...` resolved to instruction numbers (one snapshot for the command)
   | clearAll
   | restart
+  | assignReg (i : Nat) (v : Int) -- `Ri = <expr>` with the value of the expression
+  | assignMem (addr v : Int)     -- `@<expr> = <expr>` with both values
+  | assignPc (v : Int)           -- `pc = <expr>`
   | goto (pc : Int)              -- `goto <location>` resolved to an instruction number
   | flag (which : Nat) (v : Bool) -- `on` / `off` of one flag: 0 sign, 1 zero, 2 overflow, 3 carry, 4 carry-block
 deriving Repr, DecidableEq, Inhabited
+
+/-- `handle_assign` to a register: `vm.store_register(index, rhs)` - the value is stored as it is -/
+def assignReg (s : State) (i : Nat) (rhs : Int) : Except PyErr State :=
+  match Gen.VM.store_register (i : Int) rhs s.vm with
+  | .ok (_, vm') => .ok { s with vm := vm' }
+  | .error e => .error e
+
+/-- `handle_assign` to a memory cell: `vm.store_memory(to_u16(address), to_u16(rhs))` -/
+def assignMem (s : State) (addr rhs : Int) : Except PyErr State :=
+  match Gen.to_u16 addr with
+  | .error e => .error e
+  | .ok a =>
+    match Gen.to_u16 rhs with
+    | .error e => .error e
+    | .ok v =>
+      match Gen.VM.store_memory a v s.vm with
+      | .ok (_, vm') => .ok { s with vm := vm' }
+      | .error e => .error e
+
+/-- `handle_assign` to `pc`: negative values are refused ("program counter cannot be negative") -/
+def assignPc (s : State) (rhs : Int) : Except PyErr State :=
+  if rhs < 0 then .error .HERAError else .ok { s with vm := { s.vm with pc := rhs } }
 
 def setBreak (s : State) (b : Int) : State := if s.breaks.contains b then s else { s with breaks := s.breaks ++ [b] }
 
@@ -138,9 +163,12 @@ def apply (dp : DProg) (fuel : Nat) (c : Cmd) (s : State) : Except PyErr (Option
   | .step => (handleStep dp s).map some
   | .cont => handleContinue dp fuel s
   | .brk b => .ok (some (setBreak s b))
-  | .clear b => .ok (some { s with breaks := s.breaks.filter (· != b) })
+  | .clear bs => .ok (some { s with breaks := s.breaks.filter (fun b => !bs.contains b) })
   | .clearAll => .ok (some { s with breaks := [] })
   | .restart => (restart dp s).map some
+  | .assignReg i v => (match assignReg s i v with | .ok s' => .ok (some s') | .error _ => .ok (some s))   -- "Eval error": no change
+  | .assignMem a v => (match assignMem s a v with | .ok s' => .ok (some s') | .error _ => .ok (some s))
+  | .assignPc v => (match assignPc s v with | .ok s' => .ok (some s') | .error _ => .ok (some s))
   | .goto pc => .ok (some { s with vm := { s.vm with pc := pc } })
   | .flag w v =>
     let vm := s.vm
